@@ -1211,10 +1211,12 @@ class Engine:
         return r
 
     def e_BinOp(self, node, st):
-        if isinstance(node.op, ast.Sub):
+        if isinstance(node.op, (ast.Sub, ast.BitOr, ast.BitAnd)):
             sets = [self._as_set(x, st) for x in (node.left, node.right)]
             if all(x is not None for x in sets):
-                return self.set_difference(sets[0], sets[1], st, node)
+                if isinstance(node.op, ast.Sub):
+                    return self.set_difference(sets[0], sets[1], st, node)
+                return self.set_combine(sets[0], sets[1], isinstance(node.op, ast.BitOr), st, node)
         return self.binop(node.op, self.eval(node.left, st), self.eval(node.right, st), st, node)
 
     def _as_set(self, node: ast.expr, st: State):
@@ -1228,7 +1230,31 @@ class Engine:
             return None
         if isinstance(node, ast.Name) and node.id in st.env and isinstance(st.env[node.id].ty, TSet):
             return st.env[node.id]
+        if isinstance(node, ast.Call) and isinstance(node.func, ast.Name) and node.func.id == "set" and "set" not in st.env \
+                and len(node.args) == 1 and not node.keywords:
+            v = self.eval(node.args[0], st)
+            if isinstance(v.ty, TSet):
+                return v
+            if isinstance(v.ty, TDict):  # set(d): the keys
+                ty = TSet(v.ty.key)
+                return Val(ty, ty.mk(v.ty.dom(v.t), v.ty.size(v.t)))
+            return self.b_set(node, st)
         return None
+
+    def set_combine(self, a: Val, b: Val, union: bool, st: State, node) -> Val:
+        """a | b  /  a & b: membership pointwise; the ghost cardinality is characterised as zero / non-zero."""
+        if a.ty.name != b.ty.name:
+            raise Unsupported("combination of sets of different element sorts", node)
+        ty = a.ty
+        r = ty.fresh("union" if union else "inter")
+        k = z3.Const(fresh_name("uk"), ty.key.sort())
+        mk_ = z3.Select(ty.mem(r.t), k)
+        ma, mb = z3.Select(ty.mem(a.t), k), z3.Select(ty.mem(b.t), k)
+        inside = z3.Or(ma, mb) if union else z3.And(ma, mb)
+        st.assume(z3.ForAll([k], mk_ == inside, patterns=[mk_, ma, mb] if union else [mk_]))
+        st.assume(ty.card(r.t) >= 0)
+        st.assume((ty.card(r.t) == 0) == z3.ForAll([k], z3.Not(inside)))
+        return r
 
     def set_difference(self, a: Val, b: Val, st: State, node) -> Val:
         """a - b: membership pointwise; the ghost cardinality is only characterised as zero / non-zero."""
@@ -1699,6 +1725,9 @@ class Engine:
                 raise Unsupported("unbound method call through the class", node)
             return self.apply_contract(c, [self.eval(a, st) for a in node.args], self._kwargs(node, st), st, node)
         recv = self.eval(f.value, st)
+        if recv.ty is TStr and name == "join" and len(node.args) == 1:
+            self.eval(node.args[0], st)  # (evaluated for its exceptions; the text itself is opaque)
+            return TStr.fresh("joined")
         if isinstance(recv.ty, TUnion) and name in ("index", "count"):
             seq_alt = next((aty for _, aty in recv.ty.alts if isinstance(aty, TSeq)), None)
             if seq_alt is not None:  # str has these methods too, with another meaning: only the tuple reading is modelled
@@ -1837,7 +1866,13 @@ class Engine:
         """set(seq): membership = occurrence in the sequence; the ghost cardinality is characterised as zero iff empty."""
         if len(node.args) != 1:
             raise Unsupported("set() form", node)
-        sq = self._as_seq(self.eval(node.args[0], st), st, node)
+        v0 = self.eval(node.args[0], st)
+        if isinstance(v0.ty, TSet):
+            return v0
+        if isinstance(v0.ty, TDict):  # set(d): the keys
+            ty0 = TSet(v0.ty.key)
+            return Val(ty0, ty0.mk(v0.ty.dom(v0.t), v0.ty.size(v0.t)))
+        sq = self._as_seq(v0, st, node)
         ty = TSet(sq.ty.elem)
         r = ty.fresh("set")
         k = z3.Const(fresh_name("sk"), ty.key.sort())
